@@ -41,7 +41,7 @@ def plan(tier, seed):
     p.stubbing = True
     p.modules.append(("yuvxyb-math/src/matrix.rs", open(os.path.join(os.path.dirname(__file__), "..", "harness", "math_stub.rs")).read()))
     p.modules.append(("yuvxyb-math/src/lib.rs", open(os.path.join(os.path.dirname(__file__), "..", "harness", "math_stub_lib.rs")).read()))
-    wcfgs = w_instances(tier, seed)
+    wcfgs = w_instances(tier, seed, light=True)
 
     def late(ctx, plan):
         consts = native.consts(ctx)
@@ -72,7 +72,7 @@ def plan(tier, seed):
                 for q in Y.glue_c02(consts, mc, bd, full):
                     res = q.run(cross=(bd in (8, 16)))
                     if res["status"] == "sat":
-                        res["replay"] = {"reproduced": None, "detail": "glue model is real-valued; see lemma counterexamples"}
+                        res["replay"] = Y.replay_glue(ctx, q, res, "c02", mc, bd, full)
                     out.append(res)
         return out
     p.late = late
